@@ -354,7 +354,7 @@ var propOps = map[string][]string{
 	"C10": {"share ", "css export", "css write", "sss "},
 	"C11": {"css ", "sh parsetxs"},
 	"C12": {"sq txrange", "sq blobrange", "css ranges", "css write", "css export", "b txrange"},
-	"C13": {"cnt ", "arith ", "sq blobrange", "b bloblen"},
+	"C13": {"cnt ", "arith ", "sq blobrange", "b bloblen", "sh parseshares"},
 	"C14": {"css ", "b "},
 	"C15": {"arith "},
 	"C16": {},
